@@ -43,6 +43,7 @@ class Ctx:
                          'calls_resolved': 0, 'calls_unresolved': 0}
         self.exhaustive = {}
         self.notes = []
+        self.rule_errors = []      # (rule id, message) of rules that could not be evaluated
 
     def fn(self, relpath, qualname):
         self.counters['functions_analysed'].add(f'{relpath}:{qualname}')
@@ -97,9 +98,15 @@ def run_rules(prop, ix, tier='quick', only=None):
         if only and rid not in only:
             continue
         before = len(ctx.obligations)
-        fn(ctx)
+        try:
+            fn(ctx)
+        except AnalysisError as e:
+            # a rule that cannot be evaluated (anchor moved, idiom not recognised) does not hide what the other rules decide: the error is
+            # kept and turns the run into exit 2 only when no rule reports a new violation (see run.check)
+            ctx.rule_errors.append((rid, str(e)))
+            continue
         if len(ctx.obligations) == before:
-            raise AnalysisError(f'{rid} produced no obligation (vacuous rule)')
+            ctx.rule_errors.append((rid, f'{rid} produced no obligation (vacuous rule)'))
     return ctx
 
 
@@ -161,7 +168,7 @@ def write_evidence(prop, tier, seed, ctx, wall, violations, known_hits, extra=No
                        'unresolved': ctx.counters['calls_unresolved'] if ctx else 0},
         'exhaustive_per_rule': ctx.exhaustive if ctx else {},
         'exhaustive': False,
-        'notes': ctx.notes if ctx else [],
+        'notes': (ctx.notes + [f'rule {r_} could not be evaluated: {m_}' for r_, m_ in ctx.rule_errors]) if ctx else [],
         'samples': samples[:40],
         'checker_cmd': f'/venv/bin/python -m sa.run {prop} --tier {tier}',
         'trusted_base': ['CPython ast parser', 'sa/ engine (CFG builder, abstract domains)',
